@@ -112,6 +112,32 @@ func runFDExitState(c *core.Ctx) {
 	c.Check(okAlive, "RunArchetype:alive-before-Run", run.Pos(), "setState(alive) precedes ctx.Run()", "the archetype is not marked alive before it runs: detectors would keep aborting (uninitialized) or report it failed while it runs")
 	errVar := namedResult(fn, 0)
 	errVarObj = errVar
+	// names of Run's error: the named result, the variable Run's result is stored in, and plain copies between them
+	errNames := map[types.Object]bool{}
+	if errVar != nil {
+		errNames[errVar] = true
+	}
+	if as, ok := g.Parent(run).(*ast.AssignStmt); ok && len(as.Lhs) == 1 {
+		if o := an.ObjOf(info, as.Lhs[0]); o != nil {
+			errNames[o] = true
+		}
+	}
+	for changed := true; changed; {
+		changed = false
+		ast.Inspect(fn.Body(), func(m ast.Node) bool {
+			if as, ok := m.(*ast.AssignStmt); ok && len(as.Lhs) == 1 && len(as.Rhs) == 1 {
+				l, r := an.ObjOf(info, as.Lhs[0]), an.ObjOf(info, as.Rhs[0])
+				if l != nil && r != nil && errNames[r] && !errNames[l] {
+					if _, isLit := m.(*ast.FuncLit); !isLit {
+						errNames[l] = true
+						changed = true
+					}
+				}
+			}
+			return true
+		})
+	}
+	isErrName := func(x ast.Expr) bool { o := an.ObjOf(info, x); return o != nil && errNames[o] }
 	// normal exits
 	isFinal := func(a ast.Node) bool {
 		call, ok := a.(*ast.CallExpr)
@@ -177,7 +203,7 @@ func runFDExitState(c *core.Ctx) {
 		guarded := false
 		for _, cd := range g.CondAtoms(func(ex ast.Expr) bool {
 			be, ok := an.Unparen(ex).(*ast.BinaryExpr)
-			return ok && (be.Op == token.EQL || be.Op == token.NEQ) && an.ObjOf(info, be.X) == errVar && isNilIdent(info, be.Y)
+			return ok && (be.Op == token.EQL || be.Op == token.NEQ) && isErrName(be.X) && isNilIdent(info, be.Y)
 		}) {
 			be := an.Unparen(cd.(ast.Expr)).(*ast.BinaryExpr)
 			if g.GuardedBy(s, cd, be.Op == token.EQL) {
@@ -198,7 +224,7 @@ func runFDExitState(c *core.Ctx) {
 		callGuarded := false
 		for _, cd := range g.CondAtoms(func(ex ast.Expr) bool {
 			be, ok := an.Unparen(ex).(*ast.BinaryExpr)
-			return ok && (be.Op == token.EQL || be.Op == token.NEQ) && an.ObjOf(info, be.X) == errVar && isNilIdent(info, be.Y)
+			return ok && (be.Op == token.EQL || be.Op == token.NEQ) && isErrName(be.X) && isNilIdent(info, be.Y)
 		}) {
 			be := an.Unparen(cd.(ast.Expr)).(*ast.BinaryExpr)
 			if g.GuardedBy(a, cd, be.Op == token.EQL) {
@@ -405,6 +431,42 @@ func runFDFailBranch(c *core.Ctx) {
 		}) {
 			if g.GuardedBy(a, cd, true) {
 				redial = true
+			}
+		}
+	}
+	// ... and that test is made for every RPC error, whatever the detector believed before: from the error side of the
+	// RPC-error test no path reaches the next poll without evaluating it
+	for _, cdS := range g.CondAtoms(func(ex ast.Expr) bool {
+		be, ok := an.Unparen(ex).(*ast.BinaryExpr)
+		if !ok || be.Op != token.EQL {
+			return false
+		}
+		o := selectedOrIdentObj(info, be.Y)
+		return o != nil && o.Name() == "ErrShutdown"
+	}) {
+		errO := an.ObjOf(info, an.Unparen(cdS.(ast.Expr)).(*ast.BinaryExpr).X)
+		if errO == nil {
+			continue
+		}
+		for _, blk := range g.CFG.Blocks {
+			cdE, _ := g.Cond(blk)
+			if cdE == nil {
+				continue
+			}
+			isT, nonNil := nilTestOn(g, info, cdE, func(x ast.Expr) bool { return an.ObjOf(info, x) == errO })
+			if !isT || !g.GuardedBy(cdS, cdE, nonNil) {
+				continue
+			}
+			skip := g.Search(an.Query{From: cdE, Edges: g.Branch(cdE, nonNil), Avoid: func(y ast.Node) bool { return y == cdS },
+				Target: func(y ast.Node) bool {
+					call, ok := y.(*ast.CallExpr)
+					return ok && an.IsMethodNamed(an.CalleeFunc(info, call), an.PkgResources, "SingleFailureDetector", "ensureClient")
+				}})
+			if skip.Found {
+				redial = false
+				c.Bad("mainLoop:shutdown-tested-for-every-rpc-error", cdS.Pos(), "an RPC error can lead to the next poll without the rpc.ErrShutdown test (it sits under another condition): when the connection is shut down while the detector already believes 'failed', it never re-dials, and a monitor that comes back is reported failed for ever")
+			} else {
+				c.Ok("mainLoop:shutdown-tested-for-every-rpc-error", cdS.Pos(), "every RPC error is compared with rpc.ErrShutdown")
 			}
 		}
 	}
